@@ -98,6 +98,57 @@ def multibyte_cases(table):
     return cases
 
 
+STRESS_NUMBERS = ["18446744073709551616", "18446744073709551615", "18446744073709551614", "18446744073709551613", "18446744073709550593", "1.8446744073709552e19",
+                  "9223372036854775808", "9223372036854775807", "9223372036854775806", "-9223372036854775808", "-9223372036854775807", "-9223372036854775809",
+                  "-9.223372036854775808e18", "9007199254740992", "9007199254740993", "9007199254740991", "9007199254740992.0", "0", "-0", "0.0", "-0.0", "1e400",
+                  "-1e400", "5e-324", "1", "1.0", "1.5", "-1.5", "1e19", "-1e19", "2e19", "1e308"]
+STRESS_OTHER = ['null', 'true', 'false', '""', '"a"', '[]', '[1]', '[1, 2]', '{}', '{"a": 1}', '{"a": 1, "b": 2}', '{"b": 2, "a": 1}', '{"a": {"x": 1, "y": 2}}',
+                '{"a": {"y": 2, "x": 1}}', '[{"a": 1, "b": 2}]', '[{"b": 2, "a": 1}]', '"\u00e9"', '[null]', '[[]]']
+
+
+STRESS_CLUSTERS = [["18446744073709551616", "18446744073709551615", "18446744073709551614", "18446744073709551613", "18446744073709550593", "1.8446744073709552e19"],
+                   ["9223372036854775808", "9223372036854775807", "9223372036854775806", "9.223372036854775808e18", "9223372036854775809"],
+                   ["-9223372036854775808", "-9223372036854775807", "-9223372036854775809", "-9.223372036854775808e18", "-9223372036854775810"],
+                   ["9007199254740992", "9007199254740993", "9007199254740991", "9007199254740992.0", "9007199254740994", "9.007199254740992e15"],
+                   ["0", "-0", "0.0", "-0.0", "0e0", "5e-324", "-5e-324", "1e-400"],
+                   ['{"a": 1, "b": 2}', '{"b": 2, "a": 1}', '{"a": 5, "b": 0}', '{"a": 0, "b": 9}', '{"a": 1, "b": 2.0}', '[{"a": 1, "b": 2}]', '[{"b": 2, "a": 1}]']]
+
+
+def order_stress_cases(rnd, n):
+    """Long lists (sorting switches algorithm with the length, and a standard sort may panic on an inconsistent order) of values whose comparison
+    has special cases - integers and floats around 2^53, 2^63, 2^64, signed zeros, overflowing literals, objects equal up to member order -
+    through every path that orders values: sort, sort_unique, sort_by, sort_by_values, --sort-by, --unique, group keys, <."""
+    out = []
+    for i in range(n):
+        pool = STRESS_NUMBERS if rnd.random() < 0.6 else STRESS_NUMBERS + STRESS_OTHER
+        k = rnd.choice([21, 25, 33, 50, 64, 100])
+        # every neighbourhood (where an integer, its neighbours and the float they all round to meet) through every path in turn; every
+        # second list is drawn from the neighbourhood alone
+        near = STRESS_CLUSTERS[i % len(STRESS_CLUSTERS)]
+        pure = (i // (6 * len(STRESS_CLUSTERS))) % 2 == 0
+        vals = [rnd.choice(near) if pure or rnd.random() < 0.8 else rnd.choice(pool) for _ in range(k)]
+        lst = "[" + ", ".join(vals) + "]"
+        how = (i // len(STRESS_CLUSTERS)) % 6
+        if how == 0:
+            out.append({"id": 0, "argv": ["--select=(%s .) =s" % rnd.choice(["sort", "sort_unique"])], "stdin": hexs(lst.encode() + b"\n"), "_expr": "order stress"})
+        elif how == 1:
+            out.append({"id": 0, "argv": ["--select=(sort_by . .) =s", "--select=(sort_by_values (fold . {} (put .so_far (stringify .index) .value))) =t"],
+                        "stdin": hexs(lst.encode() + b"\n"), "_expr": "order stress"})
+        elif how == 2:
+            out.append({"id": 0, "argv": ["--sort-by=." + rnd.choice(["", " DESC"])] + rnd.choice([[], ["--take=5"], ["--unique"]]),
+                        "stdin": hexs("\n".join(vals).encode() + b"\n"), "_expr": "order stress"})
+        elif how == 3:
+            out.append({"id": 0, "argv": ["--sort-by=.k", "--sort-by=.j DESC"],
+                        "stdin": hexs("\n".join('{"k": %s, "j": %s}' % (v, rnd.choice(vals)) for v in vals).encode() + b"\n"), "_expr": "order stress"})
+        elif how == 4:
+            out.append({"id": 0, "argv": ["--unique", "--select=. =v", "--select=(< . %s) =lt" % rnd.choice(STRESS_NUMBERS)],
+                        "stdin": hexs("\n".join(vals).encode() + b"\n"), "_expr": "order stress"})
+        else:
+            out.append({"id": 0, "argv": ["--select=(sort_by . (stringify .)) =s", "--select=(group_by . (stringify .)) =g", "--select=(sort (map . (* . 1))) =m"],
+                        "stdin": hexs(lst.encode() + b"\n"), "_expr": "order stress"})
+    return out
+
+
 def check(tier, seed, replay=None):
     chk = Check("C05", tier, seed, level="model_checking")
     quick = tier == "quick"
@@ -168,6 +219,7 @@ def check(tier, seed, replay=None):
         cases.append({"id": 0, "argv": ["--on-error=" + rnd.choice(POLICIES)] + rnd.choice([[], ["--select=. =a"], ["--sort-by=."], ["--merge"], ["--unique"]]),
                       "stdin": hexs(data), "_expr": "bytes"})
     cases += [{"id": 0, "argv": [], "stdin": hexs(b"[" * d + b"1" + b"]" * d), "_expr": "nesting %d" % d} for d in (1, 10, 64)]
+    cases += order_stress_cases(rnd, 72 if quick else 1440)
     cases += expr_cases(rnd, table, 1500 if quick else 200000)
     cases += multibyte_cases(table)
     bc = boundary_cases(table, quick)
